@@ -108,7 +108,7 @@ def build(names):
         for variant, drvs in by_variant.items():
             vdir = os.path.join(root, variant)
             os.makedirs(vdir, exist_ok=True)
-            flags = VARIANTS[variant]
+            flags = VARIANTS[variant] + " " + os.environ.get("VERIF_EXTRA_CFLAGS", "")   # e.g. --coverage for bin/coverage.sh
             lines = [
                 "cxx = g++",
                 "cflags = -std=c++20 -fPIC -w %s -I%s -I%s" % (flags, inc, os.path.join(VERIF, "harness")),
